@@ -4,7 +4,7 @@ from ..fdai import EnumV, AggV, K, SymV, RefV, Cell, Loc, TOP, load, snapshot
 from . import contrib as CB
 
 LEVEL = "other"
-TECHNIQUE = 'abstract device model (sa/rules/devmodel.py): *STB?, ScpiDevice::scpi_stb, IEEE4882::stb, *CLS, *ESE, *SRE, *OPC, *OPC?, *TST?, *RST, *WAI are interpreted by the FDAI engine on concrete device states; the answer and the final state are compared with the IEEE 488.2 section 11 status model over ESR/ESE pairs and SRE values covering every bit position x queue empty/non-empty x QUES/OPER summary x message-available (1632 states for *STB? in the quick tier); bit numbers from the StatusBit/EventStatusBit discriminants; documented wiring of cls/opc/stb checked on the example device (C13); census: no library code assigns Context.mav'
+TECHNIQUE = 'abstract device model (sa/rules/devmodel.py): *STB?, ScpiDevice::scpi_stb, IEEE4882::stb, *CLS, *ESE, *SRE, *OPC, *OPC?, *TST?, *RST, *WAI are interpreted by the FDAI engine on concrete device states; the answer and the final state are compared with the IEEE 488.2 section 11 status model over ESR/ESE pairs and SRE values covering every bit position x queue empty/non-empty x QUES/OPER summary x message-available (1632 states for *STB? in the quick tier); bit numbers from the StatusBit/EventStatusBit discriminants; documented wiring of cls/opc/stb checked on the example device (C13); census: no library code assigns Context.mav; the common-command leaves the macros declare (evaluated witness tree); provided device-trait methods analysed in place'
 LEVEL_TEXT = "For each start state the status byte is computed from the MIR and must equal: bit 2 iff the queue is non-empty, bit 3 / bit 7 iff the QUES / OPER summary is true, bit 4 iff message-available, bit 5 iff ESR & ESE != 0, bit 6 iff one of those is enabled in SRE - and nothing may change. *CLS must leave exactly ESR=0, both event registers 0 and an empty queue with every enable, filter, condition, ESE and SRE untouched; *ESE/*SRE store and read back a u8 and fail without side effect on a conversion error; *OPC sets bit 0 and queues -800; *OPC? answers 1; *TST? answers 0 or the self-test error's code; *RST/*WAI leave the status state alone."
 LEVEL_NOTE = "Not decided: whether a register 'summary' should be event- or condition-based (the property does not say; the code uses condition & enable); histories; devices overriding the default stb/cls/opc. Trusted: rustc MIR, FDAI models."
 
